@@ -294,10 +294,22 @@ def run(c: Check):
         if plan is not None and k["returned"] is not None and k["returned"] != plan:
             c.violation("C12:returned-tasks-differ", "fromParameters(return_tasks=True) does not return the configuration with the "
                         "pre/init tasks of the model's exec_plan", dict(desc=k["desc"], root=k["root"], returned=k["returned"], plan=plan))
+    # directed probe outside the model: DataPath parameters (data files copied at save time)
+    prd = run_impl("drive_c12data.py", {}, timeout=300)
+    c.count("probe:datapath")
+    for path, key in (("save_load", "C12:datapath:save-load"), ("serialize_deserialize", "C12:datapath:data-files-collide"),
+                      ("instance", "C12:datapath:job-process")):
+        if prd.get(path) != prd["want"]:
+            c.violation(key, f"DataPath parameters, {path}: each configuration must read back the content of its own data file; "
+                        f"got {prd.get(path)}", dict(desc=dict(nodes=[], actions=[]), root=0, probe="harness/drive_c12data.py", got=prd))
+    if prd.get("instance_types") not in (["PosixPath"], None):
+        c.violation("C12:datapath:job-process-observes-str", "the job process observes a DataPath parameter as "
+                    + str(prd.get("instance_types")) + " where a Path was configured",
+                    dict(desc=dict(nodes=[], actions=[]), root=0, probe="harness/drive_c12data.py", got=prd))
     c.level_assumptions = [
         "object identity is abstract: definitions and reloaded nodes are aligned on heap positions through the python ids the implementation itself wrote",
         "json.dump/json.load are trusted to round-trip ints, floats (incl. nan/inf/-0.0), strings and nested lists/dicts",
-        "DataPath serialisation (copying data files) is outside the model",
+        "DataPath serialisation (copying data files) is outside the model: a directed probe (harness/drive_c12data.py) covers it",
         "the job-process path (params.json read by experimaestro run) is exercised in-process through load_objects(as_instance=True)",
     ]
 
